@@ -166,19 +166,20 @@ theorem AllCoherent.remove {S : SDoc → Prop} {idx idx'} {sd : SDoc} (h : AllCo
   exact (h n i hi).remove hinj hrem
 
 theorem AllUnique.add {S : SDoc → Prop} {idx idx'} {sd : SDoc} (hc : AllCoherent sch S idx)
-    (hu : AllUnique sch S idx) (hok : ∀ x, S x → DocOk x.doc) (hsd : DocOk sd.doc)
-    (ha : addToIndexes sch sd idx = .ok idx') : AllUnique sch (fun x => S x ∨ x = sd) idx' := by
+    (hinj : IdInj S) (hu : AllUnique sch (fun x => S x ∧ DocOk x.doc) idx)
+    (ha : addToIndexes sch sd idx = .ok idx') :
+    AllUnique sch (fun x => (S x ∨ x = sd) ∧ DocOk x.doc) idx' := by
   intro n i' hm
   obtain ⟨i, hi, hadd⟩ := addToIndexes_mem ha n i' hm
-  exact (hu n i hi).add (hc n i hi) hok hsd hadd
+  exact (hu n i hi).add (hc n i hi) hinj hadd
 
-theorem AllUnique.remove {S : SDoc → Prop} {idx idx'} {sd : SDoc} (hu : AllUnique sch S idx)
-    (hr : removeFromIndexes sch sd idx = .ok idx') :
-    AllUnique sch (fun x => S x ∧ x.id ≠ sd.id) idx' := by
+theorem AllUnique.remove {S S' : SDoc → Prop} {idx idx'} {sd : SDoc} (hu : AllUnique sch S idx)
+    (hs : ∀ x, S' x → S x) (hr : removeFromIndexes sch sd idx = .ok idx') :
+    AllUnique sch S' idx' := by
   intro n i' hm
   obtain ⟨i, hi, hrem⟩ := removeFromIndexes_mem hr n i' hm
   obtain ⟨h1, h2⟩ := remove_shape hrem
-  exact (hu n i hi).mono (fun x hx => hx.1) h1 h2
+  exact (hu n i hi).mono hs h1 h2
 
 /-! ### `foldIdx` over lists of documents -/
 
@@ -221,21 +222,19 @@ theorem foldIdx_remove_coherent : ∀ {list : List SDoc} {S : SDoc → Prop} {id
       exact this.congr (fun x => by
         simp only [List.mem_cons, forall_eq_or_imp, and_assoc])
 
-theorem foldIdx_remove_unique : ∀ {list : List SDoc} {S : SDoc → Prop} {idx idx' : List (String × Index)},
-    AllUnique sch S idx →
+theorem foldIdx_remove_unique : ∀ {list : List SDoc} {S S' : SDoc → Prop} {idx idx' : List (String × Index)},
+    AllUnique sch S idx → (∀ x, S' x → S x) →
     foldIdx (fun idx sd => removeFromIndexes sch sd idx) idx list = .ok idx' →
-    AllUnique sch (fun x => S x ∧ ∀ o ∈ list, x.id ≠ o.id) idx'
-  | [], S, idx, idx', hu, h => by
+    AllUnique sch S' idx'
+  | [], S, S', idx, idx', hu, hs, h => by
     simp only [foldIdx, Except.ok.injEq] at h; subst h
-    exact hu.congr (fun x => by simp)
-  | sd :: r, S, idx, idx', hu, h => by
+    exact fun n i hm => (hu n i hm).mono hs rfl rfl
+  | sd :: r, S, S', idx, idx', hu, hs, h => by
     rw [foldIdx] at h
     split at h
     · cases h
     · rename_i idx1 h1
-      have := foldIdx_remove_unique (hu.remove h1) h
-      exact this.congr (fun x => by
-        simp only [List.mem_cons, forall_eq_or_imp, and_assoc])
+      exact foldIdx_remove_unique (hu.remove (fun x hx => hx) h1) hs h
 
 /-- removal of stored documents from coherent indexes never fails -/
 theorem foldIdx_remove_ok : ∀ {list : List SDoc} {S : SDoc → Prop} {idx : List (String × Index)},
@@ -270,24 +269,25 @@ theorem foldIdx_add_coherent : ∀ {list : List SDoc} {S : SDoc → Prop} {idx i
       exact this.congr (fun x => by simp only [List.mem_cons, or_assoc])
 
 theorem foldIdx_add_unique : ∀ {list : List SDoc} {S : SDoc → Prop} {idx idx' : List (String × Index)},
-    AllCoherent sch S idx → AllUnique sch S idx → (∀ x, S x → DocOk x.doc) → DocsOk list →
+    AllCoherent sch S idx → IdInj S → (∀ nd ∈ list, ∀ x, S x → x.id ≠ nd.id) →
+    (list.map (·.id)).Nodup → AllUnique sch (fun x => S x ∧ DocOk x.doc) idx →
     foldIdx (fun idx sd => addToIndexes sch sd idx) idx list = .ok idx' →
-    AllUnique sch (fun x => S x ∨ x ∈ list) idx'
-  | [], S, idx, idx', _, hu, _, _, h => by
+    AllUnique sch (fun x => (S x ∨ x ∈ list) ∧ DocOk x.doc) idx'
+  | [], S, idx, idx', _, _, _, _, hu, h => by
     simp only [foldIdx, Except.ok.injEq] at h; subst h
     exact hu.congr (fun x => by simp)
-  | sd :: r, S, idx, idx', hc, hu, hok, hl, h => by
+  | sd :: r, S, idx, idx', hc, hinj, hfresh, hnd, hu, h => by
     rw [foldIdx] at h
     split at h
     · cases h
     · rename_i idx1 h1
-      have hsd : DocOk sd.doc := hl sd (by simp)
-      have := foldIdx_add_unique (hc.add h1) (hu.add hc hok hsd h1)
-        (fun x hx => by
+      rw [List.map_cons, List.nodup_cons] at hnd
+      have := foldIdx_add_unique (hc.add h1) (hinj.insert (hfresh sd (by simp)))
+        (fun nd hnd' x hx => by
           rcases hx with hx | rfl
-          · exact hok x hx
-          · exact hsd)
-        (fun x hx => hl x (List.mem_cons_of_mem _ hx)) h
+          · exact hfresh nd (List.mem_cons_of_mem _ hnd') x hx
+          · exact fun e => hnd.1 (List.mem_map.mpr ⟨nd, hnd', e.symm⟩))
+        hnd.2 (hu.add hc hinj h1) h
       exact this.congr (fun x => by simp only [List.mem_cons, or_assoc])
 
 /-! ### `selectDocs`: a sub-list of a permutation of the documents -/
@@ -473,6 +473,18 @@ theorem Unique.new (b : Bool) : Unique sch (newColl b) := by
   intro n i _ _ x y hx
   simp [newColl] at hx
 
+theorem idInj_of_distinct {docs : List SDoc} (h : IdsDistinct docs) : IdInj (· ∈ docs) :=
+  fun x y hx hy e => ids_inj h x hx y hy e
+
+theorem UniqueOk.of_unique {c : Coll} (h : Unique sch c) : UniqueOk sch c :=
+  fun n i hm => (h n i hm).mono (fun _ hx => hx.1) rfl rfl
+
+/-- on well-formed documents (every Go value) `UniqueOk` is `Unique` -/
+theorem UniqueOk.unique {c : Coll} (h : UniqueOk sch c) (hok : DocsOk c.docs) : Unique sch c :=
+  fun n i hm => (h n i hm).mono (fun x hx => ⟨hx, hok x hx⟩) rfl rfl
+
+theorem UniqueOk.new (b : Bool) : UniqueOk sch (newColl b) := .of_unique (.new b)
+
 theorem Coherent.insert {c c' : Coll} {d : Doc} {nu nu' : Nu} {sd : SDoc}
     (hc : Coherent sch c) (hb : IdsBelow c.docs nu.nextId)
     (h : c.insert sch d nu = .ok (c', sd, nu')) :
@@ -487,11 +499,16 @@ theorem Coherent.insert {c c' : Coll} {d : Doc} {nu nu' : Nu} {sd : SDoc}
     · have := hb x hx; omega
     · simp only [List.mem_singleton] at hx; subst hx; omega
 
-theorem Unique.insert {c c' : Coll} {d : Doc} {nu nu' : Nu} {sd : SDoc}
-    (hc : Coherent sch c) (hu : Unique sch c) (hok : DocsOk c.docs) (hsd : DocOk sd.doc)
-    (h : c.insert sch d nu = .ok (c', sd, nu')) : Unique sch c' := by
+theorem UniqueOk.insert {c c' : Coll} {d : Doc} {nu nu' : Nu} {sd : SDoc}
+    (hc : Coherent sch c) (hu : UniqueOk sch c)
+    (h : c.insert sch d nu = .ok (c', sd, nu')) : UniqueOk sch c' := by
   obtain ⟨d', nu1, _, _, _, idx', ha, rfl⟩ := insert_spec h
-  exact (AllUnique.add hc.2 hu hok hsd ha).congr (fun x => by simp)
+  exact (AllUnique.add hc.2 (idInj_of_distinct hc.1) hu ha).congr (fun x => by simp)
+
+theorem Unique.insert {c c' : Coll} {d : Doc} {nu nu' : Nu} {sd : SDoc}
+    (hc : Coherent sch c) (hu : Unique sch c) (hok' : DocsOk c'.docs)
+    (h : c.insert sch d nu = .ok (c', sd, nu')) : Unique sch c' :=
+  (UniqueOk.insert hc (.of_unique hu) h).unique hok'
 
 theorem delete_spec {c c' : Coll} {q : Doc} {sort : Option Doc} {skip limit : Int} {list : List SDoc}
     (h : c.delete sch q sort skip limit = .ok (c', list)) :
@@ -529,10 +546,15 @@ theorem Coherent.delete {c c' : Coll} {q : Doc} {sort : Option Doc} {skip limit 
   · intro n hb x hx
     exact hb x (List.mem_filter.mp hx).1
 
+theorem UniqueOk.delete {c c' : Coll} {q : Doc} {sort : Option Doc} {skip limit : Int} {list : List SDoc}
+    (hu : UniqueOk sch c) (h : c.delete sch q sort skip limit = .ok (c', list)) : UniqueOk sch c' := by
+  obtain ⟨_, idx', hf, rfl⟩ := delete_spec h
+  exact foldIdx_remove_unique hu (fun x hx => ⟨(mem_filter_notAny.mp hx.1).1, hx.2⟩) hf
+
 theorem Unique.delete {c c' : Coll} {q : Doc} {sort : Option Doc} {skip limit : Int} {list : List SDoc}
     (hu : Unique sch c) (h : c.delete sch q sort skip limit = .ok (c', list)) : Unique sch c' := by
   obtain ⟨_, idx', hf, rfl⟩ := delete_spec h
-  exact (foldIdx_remove_unique hu hf).congr (fun x => mem_filter_notAny)
+  exact foldIdx_remove_unique hu (fun x hx => (mem_filter_notAny.mp hx).1) hf
 
 /-- once the documents are selected, a delete on a coherent collection cannot fail -/
 theorem delete_ok {c : Coll} {q : Doc} {sort : Option Doc} {skip limit : Int} {list : List SDoc}
@@ -648,27 +670,29 @@ theorem Coherent.replace {c : Coll} {q repl : Doc} {sort : Option Doc} {nu nu' :
         · exact .inl hx
         · exact .inr ⟨rfl, old, hold, rfl⟩)
 
-theorem Unique.replace {c : Coll} {q repl : Doc} {sort : Option Doc} {nu nu' : Nu} {res : CResult}
-    (hc : Coherent sch c) (hu : Unique sch c) (hok : DocsOk c.docs) (hok' : DocsOk res.coll.docs)
-    (h : c.replace sch q repl sort nu = .ok (res, nu')) : Unique sch res.coll := by
+theorem UniqueOk.replace {c : Coll} {q repl : Doc} {sort : Option Doc} {nu nu' : Nu} {res : CResult}
+    (hc : Coherent sch c) (hu : UniqueOk sch c)
+    (h : c.replace sch q repl sort nu = .ok (res, nu')) : UniqueOk sch res.coll := by
   rcases replace_spec h with ⟨h1, _⟩ | ⟨old, repl', idx', hold, hn, hupd, hcoll, _⟩
   · rw [h1]; exact hu
-  · have hnw : DocOk repl' := by
-      have := hok' ⟨nu.nextId, repl'⟩ (by
-        rw [hcoll]; exact mem_replaceDoc.mpr (.inr ⟨rfl, old, hold, rfl⟩))
-      exact this
-    rw [hcoll]
+  · rw [hcoll]
     intro n i' hm
     obtain ⟨i, i1, hi, hrem, hadd⟩ := replace_upd_mem hupd n i' hm
     have c1 := (hc.2 n i hi).remove (fun x hx e => ids_inj hc.1 x hx old hold e) hrem
     obtain ⟨s1, s2⟩ := remove_shape hrem
-    have u1 : IndexUnique sch (fun x => x ∈ c.docs ∧ x.id ≠ old.id) i1 :=
-      (hu n i hi).mono (fun x hx => hx.1) s1 s2
-    have u2 := u1.add c1 (fun x hx => hok x hx.1) hnw hadd
+    have u1 : IndexUnique sch (fun x => (x ∈ c.docs ∧ x.id ≠ old.id) ∧ DocOk x.doc) i1 :=
+      (hu n i hi).mono (fun x hx => ⟨hx.1.1, hx.2⟩) s1 s2
+    have u2 := u1.add c1 ((idInj_of_distinct hc.1).mono (fun x hx => hx.1)) hadd
     exact u2.mono (fun x hx => by
-      rcases mem_replaceDoc.mp hx with hx | ⟨rfl, _⟩
+      refine ⟨?_, hx.2⟩
+      rcases mem_replaceDoc.mp hx.1 with hx | ⟨rfl, _⟩
       · exact .inl hx
       · exact .inr rfl) rfl rfl
+
+theorem Unique.replace {c : Coll} {q repl : Doc} {sort : Option Doc} {nu nu' : Nu} {res : CResult}
+    (hc : Coherent sch c) (hu : Unique sch c) (hok' : DocsOk res.coll.docs)
+    (h : c.replace sch q repl sort nu = .ok (res, nu')) : Unique sch res.coll :=
+  (UniqueOk.replace hc (.of_unique hu) h).unique hok'
 
 /-! ### `Coll.update`: remove all matched documents, then add all updated ones -/
 
@@ -860,22 +884,38 @@ theorem Coherent.update {ac : ACtx} {c : Coll} {q u : Doc} {sort : Option Doc} {
       · have := hb x hx1; omega
       · exact (f3 x hx2).2
 
-theorem Unique.update {ac : ACtx} {c : Coll} {q u : Doc} {sort : Option Doc} {skip limit : Int}
+theorem UniqueOk.update {ac : ACtx} {c : Coll} {q u : Doc} {sort : Option Doc} {skip limit : Int}
     {filters : List Doc} {nu nu' : Nu} {res : CResult}
-    (hc : Coherent ac.sch c) (hb : IdsBelow c.docs nu.nextId) (hu : Unique ac.sch c)
-    (hok : DocsOk c.docs) (hok' : DocsOk res.coll.docs)
-    (h : c.update ac q u sort skip limit filters nu = .ok (res, nu')) : Unique ac.sch res.coll := by
+    (hc : Coherent ac.sch c) (hb : IdsBelow c.docs nu.nextId) (hu : UniqueOk ac.sch c)
+    (h : c.update ac q u sort skip limit filters nu = .ok (res, nu')) : UniqueOk ac.sch res.coll := by
   rcases update_spec h with ⟨h1, _⟩ | ⟨list, news, idx1, idx2, hsel, hap, hrem, hadd, hcoll, _⟩
   · rw [h1]; exact hu
   · have hmem := selectDocs_mem hsel
     have hdl := selectDocs_distinct hsel hc.1
     obtain ⟨f1, f2, f3, f4⟩ := update_pairs_facts hc.1 hb hmem hdl hap
-    rw [hcoll] at hok' ⊢
+    obtain ⟨hids, _⟩ := applyAll_spec hap
+    rw [hcoll]
     have c1 := foldIdx_remove_coherent hc.2
       (fun o ho x hx e => ids_inj hc.1 x hx o (hmem o ho) e) hrem
-    have u1 := foldIdx_remove_unique hu hrem
-    have hnews : DocsOk (news.map (·.1)) := fun x hx => hok' x ((f2 x).mpr (.inr hx))
-    exact (foldIdx_add_unique c1 u1 (fun x hx => hok x hx.1) hnews hadd).congr f2
+    have u1 : AllUnique ac.sch (fun x => (x ∈ c.docs ∧ ∀ o ∈ list, x.id ≠ o.id) ∧ DocOk x.doc) idx1 :=
+      foldIdx_remove_unique hu (fun x hx => ⟨hx.1.1, hx.2⟩) hrem
+    have hnd : ((news.map (·.1)).map (·.id)).Nodup := by
+      rw [List.map_map]
+      have : ((fun x : SDoc => x.id) ∘ fun x : SDoc × List (String × V) => x.1) = fun x => x.1.id := rfl
+      rw [this, hids]; exact List.nodup_range' 1
+    have := foldIdx_add_unique c1 ((idInj_of_distinct hc.1).mono (fun x hx => hx.1))
+      (fun nd hnd' x hx e => by
+        have h1 := hb x hx.1
+        have h2 := (f3 nd hnd').1
+        omega) hnd u1 hadd
+    exact this.congr (fun x => by rw [f2 x])
+
+theorem Unique.update {ac : ACtx} {c : Coll} {q u : Doc} {sort : Option Doc} {skip limit : Int}
+    {filters : List Doc} {nu nu' : Nu} {res : CResult}
+    (hc : Coherent ac.sch c) (hb : IdsBelow c.docs nu.nextId) (hu : Unique ac.sch c)
+    (hok' : DocsOk res.coll.docs)
+    (h : c.update ac q u sort skip limit filters nu = .ok (res, nu')) : Unique ac.sch res.coll :=
+  (UniqueOk.update hc hb (.of_unique hu) h).unique hok'
 
 /-! ### `Coll.upsert` is an insert of the computed document -/
 
@@ -926,24 +966,26 @@ theorem build_coherent : ∀ {list : List SDoc} {S : SDoc → Prop} {i i' : Inde
       exact (build_coherent (hc.add h1) h).congr (fun x => by simp only [List.mem_cons, or_assoc])
 
 theorem build_unique : ∀ {list : List SDoc} {S : SDoc → Prop} {i i' : Index},
-    IndexCoherent sch S i → IndexUnique sch S i → (∀ x, S x → DocOk x.doc) → DocsOk list →
-    i.build sch list = .ok (i', true) → IndexUnique sch (fun x => S x ∨ x ∈ list) i'
-  | [], S, i, i', _, hu, _, _, h => by
+    IndexCoherent sch S i → IdInj S → (∀ nd ∈ list, ∀ x, S x → x.id ≠ nd.id) →
+    (list.map (·.id)).Nodup → IndexUnique sch (fun x => S x ∧ DocOk x.doc) i →
+    i.build sch list = .ok (i', true) →
+    IndexUnique sch (fun x => (S x ∨ x ∈ list) ∧ DocOk x.doc) i'
+  | [], S, i, i', _, _, _, _, hu, h => by
     simp only [Index.build, Except.ok.injEq, Prod.mk.injEq, and_true] at h; subst h
     exact hu.mono (fun x hx => by simpa using hx) rfl rfl
-  | sd :: r, S, i, i', hc, hu, hok, hl, h => by
+  | sd :: r, S, i, i', hc, hinj, hfresh, hnd, hu, h => by
     rw [Index.build] at h
     split at h
     · cases h
     · simp at h
     · rename_i i1 h1
-      have hsd : DocOk sd.doc := hl sd (by simp)
-      have := build_unique (hc.add h1) (hu.add hc hok hsd h1)
-        (fun x hx => by
+      rw [List.map_cons, List.nodup_cons] at hnd
+      have := build_unique (hc.add h1) (hinj.insert (hfresh sd (by simp)))
+        (fun nd hnd' x hx => by
           rcases hx with hx | rfl
-          · exact hok x hx
-          · exact hsd)
-        (fun x hx => hl x (List.mem_cons_of_mem _ hx)) h
+          · exact hfresh nd (List.mem_cons_of_mem _ hnd') x hx
+          · exact fun e => hnd.1 (List.mem_map.mpr ⟨nd, hnd', e.symm⟩))
+        hnd.2 (hu.add hc hinj h1) h
       exact this.mono (fun x hx => by simpa only [List.mem_cons, or_assoc] using hx) rfl rfl
 
 theorem newIndex_spec {config : IndexConfig} {index : Index} (h : newIndex config = .ok index) :
@@ -1049,9 +1091,9 @@ theorem Coherent.createIndex {c c' : Coll} {name name' : String} {config : Index
       obtain ⟨_, rfl⟩ := hm
       exact (build_coherent (newIndex_coherent hn) hb).congr (fun x => by simp)
 
-theorem Unique.createIndex {c c' : Coll} {name name' : String} {config : IndexConfig}
-    (hu : Unique sch c) (hok : DocsOk c.docs)
-    (h : c.createIndex sch name config = .ok (c', name')) : Unique sch c' := by
+theorem UniqueOk.createIndex {c c' : Coll} {name name' : String} {config : IndexConfig}
+    (hc : Coherent sch c) (hu : UniqueOk sch c)
+    (h : c.createIndex sch name config = .ok (c', name')) : UniqueOk sch c' := by
   rcases (createIndex_spec h).2 with ⟨rfl, _⟩ | ⟨index, index', hn, hb, rfl, _, _⟩
   · exact hu
   · intro n i hm
@@ -1059,9 +1101,15 @@ theorem Unique.createIndex {c c' : Coll} {name name' : String} {config : IndexCo
     · exact hu n i hm
     · simp only [List.mem_singleton, Prod.mk.injEq] at hm
       obtain ⟨_, rfl⟩ := hm
-      have u0 : IndexUnique sch (fun _ => False) index := fun _ _ _ hx => hx.elim
-      exact (build_unique (newIndex_coherent hn) u0 (fun _ hx => hx.elim) hok hb).mono
-        (fun x hx => .inr hx) rfl rfl
+      have u0 : IndexUnique sch (fun x => False ∧ DocOk x.doc) index := fun _ _ _ hx => hx.1.elim
+      exact (build_unique (newIndex_coherent hn) (fun _ _ hx => hx.elim) (fun _ _ _ hx => hx.elim)
+        hc.1 u0 hb).mono (fun x hx => ⟨.inr hx.1, hx.2⟩) rfl rfl
+
+theorem Unique.createIndex {c c' : Coll} {name name' : String} {config : IndexConfig}
+    (hc : Coherent sch c) (hu : Unique sch c) (hok : DocsOk c.docs)
+    (h : c.createIndex sch name config = .ok (c', name')) : Unique sch c' :=
+  (UniqueOk.createIndex hc (.of_unique hu) h).unique
+    (by rw [(Coherent.createIndex hc h).2]; exact hok)
 
 /-- the successful outcomes of `Coll.dropIndex`: a sub-list of the indexes that keeps `_id_` -/
 theorem dropIndex_spec {c c' : Coll} {name : String} {dropped : List String}
@@ -1108,6 +1156,14 @@ theorem Coherent.dropIndex {c c' : Coll} {name : String} {dropped : List String}
 
 theorem Unique.dropIndex {c c' : Coll} {name : String} {dropped : List String}
     (hu : Unique sch c) (h : c.dropIndex name = .ok (c', dropped)) : Unique sch c' := by
+  obtain ⟨hd, _, p, hi, _⟩ := dropIndex_spec h
+  intro n i hm
+  rw [hi] at hm
+  rw [hd]
+  exact hu n i (List.mem_filter.mp hm).1
+
+theorem UniqueOk.dropIndex {c c' : Coll} {name : String} {dropped : List String}
+    (hu : UniqueOk sch c) (h : c.dropIndex name = .ok (c', dropped)) : UniqueOk sch c' := by
   obtain ⟨hd, _, p, hi, _⟩ := dropIndex_spec h
   intro n i hm
   rw [hi] at hm
